@@ -113,9 +113,16 @@ def pmap(key, fn, items, nproc=None, chunks=1):
             total.merge(_worker((key, i)))
         return total
     ctx = mp.get_context("fork")
-    with ctx.Pool(min(nproc, len(items))) as pool:
-        for r in pool.imap(_worker, [(key, i) for i in range(len(items))], chunksize=chunks):
-            total.merge(r)
+    # an executor (not mp.Pool): a worker that dies (out of memory, crash inside a C extension) must end the run as a harness error,
+    # not leave the parent waiting for a result that will never come
+    from concurrent.futures import ProcessPoolExecutor
+    from concurrent.futures.process import BrokenProcessPool
+    try:
+        with ProcessPoolExecutor(max_workers=min(nproc, len(items)), mp_context=ctx) as pool:
+            for r in pool.map(_worker, [(key, i) for i in range(len(items))], chunksize=chunks):
+                total.merge(r)
+    except BrokenProcessPool as ex:
+        raise HarnessError("a worker process of %s died (%s)" % (key, ex))
     return total
 
 
